@@ -158,10 +158,24 @@ def _parse_composition_keywords(
     )
 
 
-def _not_a_declared_name(invented_name: str, context: ParsingContext) -> str:
-    """A name invented for an inline schema must not be the name of a declared schema: the two would be merged."""
+def _not_a_declared_name(invented_name: str, context: ParsingContext, node: Any = None) -> str:
+    """A name invented for an inline schema must not be the name of a declared schema: the two would be merged.
+
+    Given the document node the name is invented for, it must not be a name already invented for another node
+    either (Order + item_status and OrderItem + status both read OrderItemStatus; two allOf members with an inline
+    `details` each): the second inline schema gets a number instead of the first one's model.
+    """
     while invented_name in context.raw_spec_schemas:
         invented_name = f"{invented_name}Inline"
+    if node is not None:
+        base_name, number = invented_name, 1
+        while (
+            context.invented_schema_nodes.get(invented_name, node) is not node
+            or invented_name in context.raw_spec_schemas
+        ):
+            number += 1
+            invented_name = f"{base_name}{number}"
+        context.invented_schema_nodes[invented_name] = node
     return invented_name
 
 
@@ -228,7 +242,7 @@ def _parse_properties(
             if is_inline_object_node and parent_schema_name:
                 # Promote inline object to its own schema
                 promoted_schema_name = _not_a_declared_name(
-                    f"{parent_schema_name}{NameSanitizer.sanitize_class_name(prop_name)}", context
+                    f"{parent_schema_name}{NameSanitizer.sanitize_class_name(prop_name)}", context, prop_schema_node
                 )
                 promoted_ir_schema = _parse_schema(
                     promoted_schema_name,
@@ -344,7 +358,9 @@ def _parse_properties(
                         prop_context_name = f"{parent_schema_name}{sanitized_prop_name}"
                 else:
                     prop_context_name = NameSanitizer.sanitize_class_name(prop_name)
-                prop_context_name = _not_a_declared_name(prop_context_name, context)
+                prop_context_name = _not_a_declared_name(
+                    prop_context_name, context, None if (is_simple_primitive or is_simple_array) else prop_schema_node
+                )
 
                 # For simple primitives and simple arrays, avoid creating separate schemas
                 if (is_simple_primitive or is_simple_array) and prop_context_name in context.parsed_schemas:
